@@ -102,6 +102,41 @@ theorem values_unique_iff [DecidableEq α] (vals : List α) : Rel.valuesUnique v
 example : Rel.valuesUnique [1, 2, 1] = false ∧ ¬ ([1, 2, 1] : List Nat).Nodup := by decide
 
 
+theorem mem_of_mem_eraseDups_aux [DecidableEq α] : ∀ (n : Nat) (l : List α), l.length ≤ n → ∀ x, x ∈ l.eraseDups → x ∈ l
+  | 0, l, h, x, hx => by
+    have : l = [] := List.eq_nil_of_length_eq_zero (by omega)
+    subst this; simp at hx
+  | _ + 1, [], _, x, hx => by simp at hx
+  | n + 1, a :: as, h, x, hx => by
+    rw [List.eraseDups_cons] at hx
+    rcases List.mem_cons.mp hx with rfl | hx
+    · simp
+    · have h2 : (as.filter fun b => !b == a).length ≤ as.length := List.length_filter_le _ _
+      have := mem_of_mem_eraseDups_aux n (as.filter fun b => !b == a) (by simp only [List.length_cons] at h; omega) x hx
+      exact List.mem_cons_of_mem _ (List.mem_filter.mp this).1
+
+theorem nodup_eraseDups_aux [DecidableEq α] : ∀ (n : Nat) (l : List α), l.length ≤ n → l.eraseDups.Nodup
+  | 0, l, h => by
+    have : l = [] := List.eq_nil_of_length_eq_zero (by omega)
+    subst this; simp
+  | _ + 1, [], _ => by simp
+  | n + 1, a :: as, h => by
+    rw [List.eraseDups_cons, List.nodup_cons]
+    have h2 : (as.filter fun b => !b == a).length ≤ as.length := List.length_filter_le _ _
+    have hlen : (as.filter fun b => !b == a).length ≤ n := by simp only [List.length_cons] at h; omega
+    refine ⟨fun hmem => ?_, nodup_eraseDups_aux n _ hlen⟩
+    have := mem_of_mem_eraseDups_aux n _ hlen a hmem
+    simp at this
+
+/-- the values of a single grouping key, one per group, are duplicate-free -/
+theorem single_group_key_unique [DecidableEq κ] (key : α → κ) (b : List α) : ((b.map key).eraseDups).Nodup :=
+  nodup_eraseDups_aux _ _ (Nat.le_refl _)
+
+/-- with two grouping keys the first one repeats across groups: it must not be declared unique -/
+theorem two_group_keys_counterexample :
+    ¬ ((([(1, 1), (1, 2)] : List (Nat × Nat)).eraseDups).map (·.1)).Nodup := by decide
+
+
 /-- the lossy cast is not injective: ⌊1.2⌋ = ⌊1.4⌋ (values in tenths) — the witness of the repaired defect -/
 theorem cast_to_integer_not_injective : ¬ (([12, 14] : List Int).map fun x => x / 10).Nodup := by decide
 
